@@ -21,6 +21,7 @@ import Driver.Iff
 import Driver.Dsf
 import Driver.Asf
 import Driver.OggInject
+import Driver.InfoA
 open Driver
 
 def dispatch (line : String) : String :=
@@ -50,6 +51,7 @@ def dispatch (line : String) : String :=
     | "dsf" => dsfOp a
     | "asf" => asfOp a
     | "ogginject" => ogginjectOp a
+    | "infoa" => infoAOp a
     | "flacinfo" => flacInfoOp a
     | "ping" => "pong"
     | _ => "bad-op"
